@@ -122,3 +122,27 @@ def c13_uamiv_emis(v, spec):
     return (v['kind'] == 'readers-disagree:uamiv' and
             spec.get('name') == 'EMISSIONS' and spec.get('nz', 1) > 1 and
             bool(pr) and all(('LAY' in p) or ('shape' in p) for p in pr))
+
+
+@pred('C20-no-headroom-saturation')
+def c20_saturation(v, spec):
+    # PAKOUT chooses the exponent from the largest neighbour difference of
+    # the ORIGINAL field; when that difference is just below a power of two
+    # the byte range has no headroom for the half-step reconstruction error
+    # carried along, increments saturate and the error exceeds one step
+    # (observed up to ~1.15 steps).  No wrap-around, checksum and bytes are
+    # right: only the error bound is exceeded, by less than 25 %.
+    pr = v.get('problems') or []
+    return (v['kind'] == 'pack-law-broken:adversarial' and
+            spec.get('kind') == 'adversarial' and len(pr) == 1 and
+            pr[0].startswith('|unpack(pack(x)) - x|') and
+            v.get('ratio') is not None and v['ratio'] < 1.25)
+
+
+@pred('C20-index-header-length')
+def c20_lenh(v, spec):
+    # the reader takes LENH bytes AFTER the fixed 108-byte part of the index
+    # header (the format counts those 108 bytes in LENH), so it needs
+    # nx*ny >= LENH + 108; smaller grids make it read into the next record.
+    return (v['kind'].startswith('arl-reader-raised') and
+            v.get('nx', 99) * v.get('ny', 99) < v.get('lenh', 0) + 108)
